@@ -140,11 +140,21 @@ def run(ctx):
         if (v != 0.0 and abs(v) < 1e-6) or d < 1e-4:
             # is_zero_within_error also returns True through is_zero()'s absolute tolerance 1e-10: keep away from it
             v, d = v * 1e9 + 1.0, d * 1e9 + 1.0
+        tiny = i % 8 == 7
+        if tiny:
+            # comparisons are decided by the central values at every scale: data far below is_zero()'s absolute tolerance
+            # (|v| <= sigma * dvalue holds by construction, so is_zero_within_error is True for both reasons)
+            v = rng.choice([-1.0, 1.0]) * rng.uniform(1.0, 9.0) * 10.0 ** -rng.randint(11, 15)
+            d = 2.5 * abs(v)
         o = pe.cov_Obs(v, d * d, "view")
         o.gamma_method()
         v, d = float(o.value), float(o.dvalue)
         x = rng.choice([v, v + d, v - d, 0.0, rng.uniform(-2, 2) * abs(v), float(np.nextafter(v, 1e300))])
         sg = rng.choice([1, 2, 3, 0.5])
+        if tiny:
+            x = rng.choice([0.5 * v, 2.0 * v, -v, 0.0, v, 3.0 * v])
+            sg = rng.choice([1, 2, 3])
+            ctx.count("scalar views at tiny scale")
         zw = bool(o.is_zero_within_error(sg))
         term = "(mkVC %s %s %s %s %s %s %s %s %s %s)" % (qlit(v), qlit(d), qlit(x), qlit(sg), *[("true" if b else "false") for b in (o < x, o <= x, o > x, o >= x)],
                                                         qlit(float(o)), "true" if zw else "false")
